@@ -13,7 +13,7 @@ from .. import core
 ID = "C12"
 LEVEL = "exploration"
 RULE = ("all ordered pairs (a,b) of the lattice {0} U {+-m*10^e}; m in {1,1+2^-52,1.25,1.5,2-2^-52,2,3,7}, "
-        "e in -150..150 step 5 (thorough: step 1 inside the band |e_a-e_b|<=12), |value|<=1e150; per limiter. "
+        "e in -150..150 step 5 (thorough: all ordered pairs of the step-1 lattice, 4817 values), |value|<=1e150; per limiter. "
         "non-trivial = both arguments non-zero and a != b (distinct pairs by construction)")
 ASSUMPTIONS = ["values between lattice points are not explored",
                "numpy elementwise +,*,/ are correctly rounded so a 1-element replay equals the vectorised run"]
@@ -110,10 +110,23 @@ def _pairs_band():
     return np.concatenate(A), np.concatenate(B)
 
 
+def _pairs_block(k, nblk):
+    """block k of the full step-1 lattice (all ordered pairs, 4817^2 = 23.2 M), split by rows"""
+    v = lattice(1)
+    rows = np.array_split(np.arange(v.size), nblk)[k]
+    A, B = np.meshgrid(v[rows], v, indexing="ij")
+    return A.ravel(), B.ravel()
+
+
 def shard(arg):
-    name, mode = arg
+    name, mode = arg[0], arg[1]
     res = core.Res()
-    a, b = _pairs_full(5) if mode == "full" else _pairs_band()
+    if mode == "full":
+        a, b = _pairs_full(5)
+    elif mode == "band":
+        a, b = _pairs_band()
+    else:
+        a, b = _pairs_block(arg[2], arg[3])
     out, r = judge(name, a, b)
     res.evals += a.size
     res.nontrivial += int(np.sum((a != 0) & (b != 0) & (a != b)))
@@ -167,6 +180,9 @@ def run(ctx):
     ctx.pmap("pairs-full-lattice", shard, [(n, "full") for n in LIMITERS])
     if ctx.thorough:
         ctx.pmap("pairs-band-step1", shard, [(n, "band") for n in LIMITERS])
+        # every ordered pair of the step-1 lattice (4817 values: all exponents -150..150), 23.2 M pairs per limiter
+        nblk = 24
+        ctx.pmap("pairs-full-step1-lattice", shard, [(n, "block", k, nblk) for n in LIMITERS for k in range(nblk)])
     ctx.pmap("scalar-vs-array", shard_scalar, LIMITERS)
 
 
